@@ -171,11 +171,13 @@ def r16_2(ctx):
                 ti = inline_at(cfg, rd, r.id, t, depth=1, stop=(p0, d0, le, alpha or "", "self"))
                 from ..terms import canon
                 txt = src(ti)
-                if pol and canon(f"abs({le}.directional_derivative) <= -self.c2 * {d0}") == canon(ti):
+                from ..model import cc
+                if pol and canon(cc(f"abs({le}.directional_derivative) <= -self.c2 * {d0}")) == canon(ti):
                     strong = True
                 elif pol and "self.c2" in txt and f"{le}.directional_derivative" in txt:
                     weak = True
-                if not pol and alpha and canon(f"{le}.value > {p0} + self.c1 * {alpha} * {d0}") in canon(ti):
+                from ..model import cc
+                if not pol and alpha and canon(cc(f"{le}.value > {p0} + self.c1 * {alpha} * {d0}")) in canon(ti):
                     armijo = True
             why = []
             if not strong:
